@@ -304,6 +304,12 @@ func (f *Frame) ReadFrom(r io.Reader) (n int64, err error) {
 }
 
 func (f Frame) WriteTo(w io.Writer) (int64, error) {
+	// Only the header and the declared payload belong to the frame. A frame taken from the pool whose payload was
+	// not set can be longer than that (14 bytes when new, the previous length when reused).
+	if n := f.payloadOffset() + f.PayloadLength(); n >= 0 && n < len(f) {
+		f = f[:n]
+	}
+
 	written := 0
 	for written < len(f) {
 		n, err := w.Write(f[written:])
